@@ -525,10 +525,11 @@ func kindOps(pre string, v reflect.Value) {
 			s3 := a.Slice3(0, 1, 1)
 			P(pre + " slice3 " + Dump(s3) + " cap=" + itoa(s3.Cap()))
 		}
-		ms.SetLen(1)
-		P(pre + " setlen " + Dump(ms))
-		ms.Grow(10)
-		P(pre + " grow capok=" + b2s(ms.Cap() >= 11) + " " + Dump(ms))
+		c.Set(ms)
+		c.SetLen(1)
+		P(pre + " setlen " + Dump(c))
+		c.Grow(10)
+		P(pre + " grow capok=" + b2s(c.Cap() >= 11) + " " + Dump(c))
 		if a.Len() >= 2 {
 			sw := reflect.Swapper(a.Interface())
 			sw(0, a.Len()-1)
@@ -832,8 +833,13 @@ func Deep(tag string, pa, pb any) {
 
 // ---------------------------------------------------------------- calls
 
-func argFor(t reflect.Type, k int) reflect.Value {
+func argFor(t reflect.Type, k int) reflect.Value { return argForD(t, k, 0) }
+
+func argForD(t reflect.Type, k int, d int) reflect.Value {
 	v := reflect.New(t).Elem()
+	if d > 2 {
+		return v
+	}
 	switch t.Kind() {
 	case reflect.Int, reflect.Int8, reflect.Int16, reflect.Int32, reflect.Int64:
 		v.SetInt(int64(k + 3))
@@ -847,17 +853,17 @@ func argFor(t reflect.Type, k int) reflect.Value {
 		v.SetBool(k%2 == 0)
 	case reflect.Slice:
 		s := reflect.MakeSlice(t, 2, 2)
-		s.Index(0).Set(argFor(t.Elem(), k+1))
-		s.Index(1).Set(argFor(t.Elem(), k+2))
+		s.Index(0).Set(argForD(t.Elem(), k+1, d+1))
+		s.Index(1).Set(argForD(t.Elem(), k+2, d+1))
 		v.Set(s)
 	case reflect.Map:
 		m := reflect.MakeMap(t)
-		m.SetMapIndex(argFor(t.Key(), k), argFor(t.Elem(), k+1))
+		m.SetMapIndex(argForD(t.Key(), k, d+1), argForD(t.Elem(), k+1, d+1))
 		v.Set(m)
 	case reflect.Struct:
 		for i := 0; i < v.NumField(); i++ {
 			if v.Field(i).CanSet() && t.Field(i).Type.Kind() != reflect.Struct {
-				v.Field(i).Set(argFor(t.Field(i).Type, k+i))
+				v.Field(i).Set(argForD(t.Field(i).Type, k+i, d+1))
 			}
 		}
 	case reflect.Func:
@@ -868,10 +874,24 @@ func argFor(t reflect.Type, k int) reflect.Value {
 	return v
 }
 
+// callable: a nil interface argument with methods would make the callee panic
+func callable(ft reflect.Type) bool {
+	for i := 0; i < ft.NumIn(); i++ {
+		if ft.In(i).Kind() == reflect.Interface && ft.In(i).NumMethod() > 0 {
+			return false
+		}
+	}
+	return true
+}
+
 func callAndPrint(pre string, f reflect.Value) {
 	Try(pre, func() {
 		ft := f.Type()
 		n := ft.NumIn()
+		if !callable(ft) {
+			P(pre + " not called (interface argument)")
+			return
+		}
 		args := make([]reflect.Value, 0, n+2)
 		for i := 0; i < n; i++ {
 			if ft.IsVariadic() && i == n-1 {
@@ -926,6 +946,18 @@ func TypeCalls(tag string, p any) {
 			pre := "C " + tag + " " + strconv.Quote(t.String()) + "." + m.Name
 			Try(pre, func() {
 				ft := m.Func.Type()
+				if !callable(m.Type) && m.Name != "" {
+					ok := true
+					for j := 1; j < ft.NumIn(); j++ {
+						if ft.In(j).Kind() == reflect.Interface && ft.In(j).NumMethod() > 0 {
+							ok = false
+						}
+					}
+					if !ok {
+						P(pre + " not called (interface argument)")
+						return
+					}
+				}
 				args := []reflect.Value{recv}
 				for j := 1; j < ft.NumIn(); j++ {
 					if ft.IsVariadic() && j == ft.NumIn()-1 {
